@@ -143,7 +143,7 @@ CHECKS = {
              "the body: nothing supplied can add, split, truncate or terminate a field), names_stay_unique, mailbox_header_wf (the same well-formedness "
              "for From / Sender / To / Cc / Bcc / Reply-To under every display name: a model of Mailbox(es)::encode with quoted_string::encode's four "
              "strategies and the repaired write_unbreakable, Model/MailboxEnc.lean, compared octet for octet with the code), content_disposition_wf "
-             "(the same for Content-Disposition under every file name, Model/Rfc2231Enc.lean), address_list_folded (every line of a header with any number of bare addresses is within 78 "
+             "(the same for Content-Disposition under every file name, Model/Rfc2231Enc.lean), text_value_folded (every line of a text header whose value is any number of visible-ASCII words of 1..75 octets separated by single spaces is within 78 octets: Proofs/TextFold.lean), address_list_folded (every line of a header with any number of bare addresses is within 78 "
              "octets: the repaired folding, proved). The other line-length bounds (78 / 998) "
              "are checked on real outputs only (four narrow known findings). Correspondence: names of every length x adversarial texts "
              "(all alignments of 1-4 byte characters, CR/LF/NUL/controls, up to 64 KiB), all ASCII names up to length 2, random "
@@ -187,7 +187,10 @@ CHECKS = {
              "transcribes httpdate's two conversions), date_injective, date_fields_in_range (month, day of month, weekday), date_time_of_day, "
              "date_header_roundtrip (the text of the header: what Display + GMT->+0000 writes, Date::parse = +0000->GMT, parse_imf_fixdate, "
              "is_valid reads back to the same second up to year 9999; Model/DateText.lean, the parser model compared with Date::parse on "
-             "valid, mutated and out-of-range texts). "
+             "valid, mutated and out-of-range texts). mime_version_roundtrip (all 256 x 256 versions: what display writes, MimeVersion::parse - "
+             "split('.'), u8::from_str - reads back), mime_version_parse_in_range, cte_roundtrip and cte_parse_exact (the five Content-Transfer-Encoding "
+             "spellings and nothing else) over Model/TypedHdr.lean, whose two parsers are compared with the real parse functions on the edges of "
+             "u8::from_str (sign, zeros, 255/256, empty and further pieces, blanks, non-ASCII digits) and on letter-case / padding variants. "
              "The mailbox grammar round trip (display, then the chumsky grammar transcribed as a PEG, then Address::new) is proved: "
              "mailbox_roundtrip and mailbox_list_roundtrip (for every mailbox / non-empty list whose addresses have a dot-atom or quoted local part and a dot-atom or literal domain (class GoodAddr) and "
              "EVERY display name - quotes, commas, angle brackets, CR, LF, NUL included - Display does not fail and FromStr returns equal "
